@@ -235,6 +235,9 @@ def child_run(strategy, perm, salt, split, pre, plugins, rev, pre_files=None):
     env["PYTHONPATH"] = "/verif" + (":" + os.environ["VERIF_REPO"] if os.environ.get("VERIF_REPO") else "")
     base = tempfile.mkdtemp(prefix="vh10_", dir="/tmp")
     env["VERIF_C10_BASE"] = base
+    # sets the order oracle cannot see (results of dict-view operations, sets built inside libraries) iterate by real string hashes:
+    # every explored rank assignment also runs under its own real hash seed (the reference runs under seed 0)
+    env["PYTHONHASHSEED"] = "0" if perm is None else str(1 + (int(perm) * 4 + int(salt)) % 97)
     try:
         p = subprocess.run([sys.executable, "-c", "import sys, json; from harness import C10_order as H; H.child_main(json.loads(sys.argv[1]))", args],
                            capture_output=True, text=True, env=env, timeout=300, cwd=base)
